@@ -20,8 +20,10 @@ from .types import B, I, R, V, atom_name, is_ref, parse_type, rec_fields, sort_o
 VERIF = os.path.dirname(os.path.dirname(os.path.abspath(__file__)))
 
 TIERS = {
-    "quick": dict(rlimit=40_000_000, timeout_ms=40_000, cvc5=True, ob_s=90),
-    "thorough": dict(rlimit=400_000_000, timeout_ms=240_000, cvc5=True, ob_s=600),
+    # budgets are sized for a machine that is several times slower / busier than the one the checks were developed on: the slowest obligation
+    # takes ~30 s here (a verdict must not flip to "unknown" under load); easy obligations finish in the first 5 % slice either way
+    "quick": dict(rlimit=160_000_000, timeout_ms=120_000, cvc5=True, ob_s=360),
+    "thorough": dict(rlimit=800_000_000, timeout_ms=400_000, cvc5=True, ob_s=1200),
 }
 
 
